@@ -59,6 +59,8 @@ def fn_value(a, env):
         return abs(args[0])
     if n == 'int' and args and args[0] is not None:
         return F(int(args[0]))
+    if n == 'nearest' and args and args[0] is not None:
+        return F(round(args[0]))
     if n == 'floordiv' and len(args) == 2 and None not in args and args[1] != 0:
         return F(args[0] // args[1])
     if n == 'mod' and len(args) == 2 and None not in args and args[1] != 0:
